@@ -76,3 +76,13 @@ CASES += [
       "        bb = self.manager.basis_stack.pop()\n        # this is the transformation we got here with\n        SS = self.manager.basis_transformations.pop()\n        # This is the new basis\n        bss = len(self.manager.basis_stack)\n        nb = self.manager.basis_stack[bss-1]\n        \n        # inverse of the transformation matrix\n        S1 = numpy.linalg.inv(SS)     \n        \n        # transform all registered objects\n        operators = self.manager.basis_registered[bb]\n        \n        if nb != 0:\n            # operators registered with the context above this one\n            ops_above = self.manager.basis_registered[nb]\n\n        for op in operators:\n            # the operator might have been set to protected mode\n            # inside the context\n            if not op.is_basis_protected:\n                op.transform(S1,inv=SS) \n            op.set_current_basis(nb)\n            \n            # operators which appeared in this context and where not\n            # register in the one above are now registerd\n            if nb != 0:\n                if op not in ops_above:\n                    self.manager.register_with_basis(nb,op)\n            \n        self.manager.remove_current_basis_operator()\n            \n        del self.manager.basis_registered[bb]",
       "        left = self.manager.basis_stack.pop()\n        TT = self.manager.basis_transformations.pop()\n        top = self.manager.basis_stack[-1]\n        Tinv = numpy.linalg.inv(TT)     \n        \n        if top != 0:\n            ops_above = self.manager.basis_registered[top]\n\n        for obj in self.manager.basis_registered[left]:\n            if not obj.is_basis_protected:\n                obj.transform(Tinv,inv=TT) \n            obj.set_current_basis(top)\n            if top != 0:\n                if obj not in ops_above:\n                    self.manager.register_with_basis(top,obj)\n            \n        self.manager.remove_current_basis_operator()\n            \n        del self.manager.basis_registered[left]"),
 ]
+
+OPS = "quantarhei/qm/hilbertspace/operators.py"
+CASES += [
+    {"name": "diagonalisation by the general eigen-solver (unsorted)", "kind": "mutant", "rule": "C04-B1", "edits": [
+        (OPS, "        dd, SS = numpy.linalg.eigh(self._data)\n        return SS", "        dd, SS = numpy.linalg.eig(self._data)\n        return SS", 1)]},
+    {"name": "diagonalisation matrix remembered from the first call", "kind": "mutant", "rule": "C04-B1", "edits": [
+        (OPS, "        dd, SS = numpy.linalg.eigh(self._data)\n        return SS", "        if getattr(self, \"_SSd\", None) is None:\n            dd, self._SSd = numpy.linalg.eigh(self._data)\n        return self._SSd", 1)]},
+    {"name": "eigenvectors taken by index", "kind": "twin", "edits": [
+        (OPS, "        dd, SS = numpy.linalg.eigh(self._data)\n        return SS", "        return numpy.linalg.eigh(self._data)[1]", 1)]},
+]
